@@ -7,7 +7,7 @@ open GV.Model.Pipeline
 
 /-- steps taken by the pipeline's own goroutines (workers, apply runner) -/
 def internal : Ev → Bool
-  | .sub _ | .fail | .start | .cancel | .close | .pc _ | .pcq _ | .pa _ | .pb _ => false
+  | .enter | .giveup | .acq _ | .sub _ | .fail | .start | .cancel | .close | .pc _ | .pcq _ | .pa _ | .pb _ => false
   | _ => true
 
 def runnerMeasure : Runner → Nat
